@@ -87,7 +87,7 @@ def run(tier, seed, broken_proof=False):
     # model answers: every distinct query asked alone on a fresh model
     mcases = []
     for jid, (c, cfg, calls) in expect.items():
-        allq = [q for (batch, _) in calls for q in batch]
+        allq = [(i + 1, q[1], q[2]) for i, q in enumerate(q for (batch, _) in calls for q in batch)]   # the model is asked by position
         mcases.append(make_case(jid, c["n"], c["base"], allq, c["weakly"]))
     mres = common.run_model(mcases)
     ires = {}
